@@ -154,6 +154,8 @@ def bfs {σ} [DecidableEq σ] (prog : σ → Prog σ) (inputs : List UInt8) :
 /-! bytes that occur in byte tests of a program -/
 def condBytes : Cond → List Nat
   | .byteEq b => [b]
+  | .byteLe b => [b]
+  | .byteGe b => [b]
   | .not c => condBytes c
   | .and a b => condBytes a ++ condBytes b
   | .or a b => condBytes a ++ condBytes b
